@@ -327,3 +327,32 @@ def assembly_and_core_levels_agree(ctx):
     a1.setNumberDensity("FE", x)
     ctx.check_close("assembly setNumberDensity reads back", a1.getNumberDensity("FE"), x, scale=x + 1e-30)
     ctx.check_close("assembly setNumberDensity leaves U235", a1.getNumberDensity("U235"), oldU, scale=oldU + 1e-30)
+
+
+@harness("C02", bounds="a single real component (fuel or clad) with 2-3 symbolic densities; mass fraction of a nuclide "
+                       "that is / is not yet present assigned through setMassFrac(s); fraction in (0.01,0.9)",
+         stubs=STUBS, qtimeout_ms=30000,
+         instances={"quick": [dict(comp="fuel", nuc="PU239"), dict(comp="fuel", nuc="U235"), dict(comp="clad", nuc="B10"),
+                              dict(comp="clad", nuc="FE")]})
+def component_set_mass_fracs_incl_new_nuclide(ctx, comp, nuc):
+    b = _build.mk_block()
+    c = b.getComponentByName(comp)
+    held = {"fuel": ["U235", "U238", "ZR"], "clad": ["FE", "CR"]}[comp]
+    dens = {n: ctx.real("n_" + n, 1e-4, 10.0) for n in held}
+    c.p.numberDensities = dict(dens)
+    rho0 = compmod.Composite.density(c)
+    mf0 = c.getMassFracs()
+    frac = ctx.real("frac", 0.01, 0.9)
+    c.setMassFrac(nuc, frac)
+    mf1 = c.getMassFracs()
+    got = mf1[nuc]
+    if ctx.canary:
+        got = got * (1 + frac * frac)
+    ctx.check_close("assigned mass fraction reads back", got, frac, scale=1.0)
+    ctx.check_close("total density unchanged", compmod.Composite.density(c), rho0, scale=rho0)
+    others = [k for k in mf0 if k != nuc]
+    ref = others[0]
+    for k in others[1:]:
+        ctx.check_close("proportion %s:%s kept" % (k, ref), mf1[k] * mf0[ref], mf0[k] * mf1[ref],
+                        scale=mf0[k] * mf1[ref] + mf1[k] * mf0[ref])
+    ctx.check_close("mass fractions still sum to one", sum(mf1.values()), 1.0, scale=1.0)
